@@ -597,8 +597,12 @@ Fixpoint root_vals (s : state) (dirty : list Z) : option state :=
 
 Definition persist_acct (ac : acct) : acct := ac.
 
+(* updateStateObject: rlp cannot encode a negative DelegationBalance (panic) *)
+Definition acct_neg (s : state) : bool := existsb (fun p => Z.ltb (a_dbal (snd p)) 0) (accts s).
+
 Definition intermediate_root (s : state) : option state :=
   let s0 := finalise s in
+  if acct_neg s0 then None else
   match root_vals s0 (vdirty s0) with
   | None => None
   | Some s1 =>
